@@ -36,7 +36,7 @@ def fh_cmd(v):
 
 
 class Spec:
-    def __init__(self, name, extra, ntune, nfh, assign, tier, trim=(), fns=None):
+    def __init__(self, name, extra, ntune, nfh, assign, tier, trim=(), fns=None, fhset=None):
         self.name = "C02/" + name
         self.defs = trxmodel.std_config(extra)
         self.assign = assign        # list of (ver, muted) per transceiver
@@ -46,7 +46,7 @@ class Spec:
             small = i in trim
             self.alpha += [("on", i), ("off", i)]
             self.alpha += [("tune", i, k) for k in range(1 if small else ntune)]
-            self.alpha += [("fh", i, k) for k in range(1 if small else nfh)]
+            self.alpha += [("fh", i, k) for k in ((fhset or range(nfh))[:1] if small else (fhset or range(nfh)))]
 
     def build(self):
         W = AppWorld(self.defs)
@@ -95,6 +95,28 @@ class Spec:
                 deliveries += len(W.last_out)
                 if v:
                     return [(c + "-probe", "sender %s fn=%d: %s" % (t.d.name, fn, msg)) for c, msg in v]
+        # second phase: the same frames again after a POWEROFF / re-tune / POWERON cycle of every hopping
+        # transceiver (whatever was remembered per frame number while hopping must be forgotten)
+        cyc = [i for i, t in enumerate(m.trx) if t.running and t.fh is not None][:2]
+        for i in cyc:
+            for c in ("POWEROFF", "RXTUNE %d" % TUNES[i % 2][0], "TXTUNE %d" % TUNES[i % 2][1], "POWERON"):
+                v = W.ctrl(i, c)
+                if v:
+                    return [(v[0][0] + "-probe", "power cycle of %s: %s" % (m.trx[i].d.name, v[0][1]))]
+        if cyc:
+            for i, t in enumerate(m.trx):
+                if not t.running or not t.ready:
+                    continue
+                # first the very last frame number used before the cycle (anything remembered "for the
+                # current frame" would still be keyed on it), then the first few again
+                for fn in [self.fns[-1]] + list(self.fns[:5]):
+                    v = W.burst(i, fn, tn=(fn + i) % 8, pwr=i)
+                    v += W.handler_tick(fn)
+                    W.nprobe += 1
+                    deliveries += len(W.last_out)
+                    if v:
+                        return [(c + "-probe", "after power cycle of %s, sender %s fn=%d: %s"
+                                 % ([m.trx[k].d.name for k in cyc], t.d.name, fn, msg)) for c, msg in v]
         W.outcome = deliveries
         return vs
 
@@ -106,7 +128,9 @@ def specs(tier):
         out.append(Spec("3trx/v0", child, 2, 2, [(0, 0)] * 3, tier))
         out.append(Spec("3trx/mixed", child, 2, 2, [(1, 0), (0, 0), (1, 1)], tier, trim=(2,)))
         out.append(Spec("3trx/first-rx-muted", child, 1, 1, [(0, 1), (0, 0), (0, 0)], tier))
+        out.append(Spec("2trx/single-channel-ma", [], 2, 2, [(0, 0), (0, 0)], tier, fhset=(5, 0)))
     else:
+        out.append(Spec("2trx/single-channel-ma", [], 3, 3, [(0, 0), (1, 0)], tier, fhset=(5, 0, 1)))
         out.append(Spec("3trx/first-rx-muted", child, 2, 2, [(0, 1), (0, 0), (0, 0)], tier))
         out.append(Spec("3trx/first-rx-muted-v1", child, 1, 2, [(1, 1), (1, 0), (1, 0)], tier))
         out.append(Spec("3trx/v0", child, 2, 4, [(0, 0)] * 3, tier))
